@@ -220,10 +220,14 @@ class OrderedMultiDict(dict):
         if not v:
             return
         self_insert = self._insert
-        values = super().setdefault(k, [])
+        values = None
         for subv in v:
+            if values is None:
+                # *v* may be a one-shot iterator: make a single pass, and
+                # only create the key once there is a value to put under it
+                values = super().setdefault(k, [])
             self_insert(k, subv)
-        values.extend(v)
+            values.append(subv)
 
     def get(self, k, default=None):
         """Return the value for key *k* if present in the dictionary, else
